@@ -268,14 +268,23 @@ pub fn run_c12(out: &mut Out) {
         let m = rng.range(1, 16) as usize;
         let n = pick_n(&mut rng, 4, out.thorough());
         let p = rng.range(1, 4) as usize;
+        let mut out_far = 0u64;
         let cols: Vec<(Kind, Vec<Vec<f64>>)> = (0..p)
             .map(|_| {
                 let k = pick_kind(&mut rng);
                 let scale = rng.log_uniform(1e-2, 1e2);
-                let loc = rng.normal() * scale * 3.0;
+                // a quarter of the parameters sit far from the origin compared with their spread (location / sd of
+                // 100 - 1000): affine invariance in f32 then needs the centred two-pass formulas the code uses
+                let loc = if rng.coin(0.25) {
+                    out_far += 1;
+                    scale * rng.log_uniform(100.0, 1000.0) * if rng.coin(0.5) { 1.0 } else { -1.0 }
+                } else {
+                    rng.normal() * scale * 3.0
+                };
                 (k, series(&mut rng, k, m, n, loc, scale))
             })
             .collect();
+        out.count_n("parameters_far_from_origin", out_far);
         let variant = rng.below(3);
         let perm_seed = rng.next();
         if !out.selected(&id) {
